@@ -353,7 +353,15 @@ def main(tier="quick"):
     # ---- report: minimise each bad history (drop events while the mismatch persists) and match known findings
     reported = {}
     for h, ev, got, want in sorted(bad, key=lambda x: (len(x[0]), str(x))):
-        mh = minimise(h, ev, want, max_exec)
+        def acceptable(hist, ev=ev, h=h):
+            bk = [e[1] for e in hist if e[0] == "new"][ev[1]]
+            o = base[(bk, ev[2], False)]
+            ok = {o[:2] if o[0] == "pkg" else o}
+            if ev[2] == "docker" and ("ext", ev[1]) in hist:
+                o2 = base[(bk, ev[2], True)]
+                ok.add(o2[:2] if o2[0] == "pkg" else o2)
+            return ok
+        mh = minimise(h, ev, want, max_exec, acceptable)
         b = [e[1] for e in mh if e[0] == "new"][ev_index(mh, h, ev)]
         culprits = sorted({e[2] if e[0] == "tr" else (f"apply:{e[2]}" if e[0] == "apply" else e[0]) for e in mh if e[0] != "new"} | ({"same-object-again"} if ev[0] == "again" else set()))
         feat = {"culprits": culprits, "probe": ev[2], "probe_backend": b,
@@ -414,8 +422,9 @@ def probe_once(history, ev, max_exec, files=False):
     return _in_child(body)
 
 
-def minimise(h, ev, want, max_exec):
-    "Greedy 1-minimal sub-history that still makes `ev` differ from the pristine outcome (executor indices kept valid)."
+def minimise(h, ev, want, max_exec, acceptable=None):
+    """Greedy 1-minimal sub-history that still makes `ev` differ from the pristine outcome (executor indices kept valid).
+    acceptable(history) -> set of outcomes that are fine after that history (there can be two: with / without attached ext)."""
     cur = list(h)
     changed = True
     while changed:
@@ -433,7 +442,7 @@ def minimise(h, ev, want, max_exec):
                 got = probe_once(cand, ev, max_exec)
             except Exception:
                 continue
-            if got != want:
+            if (got not in acceptable(cand)) if acceptable is not None else (got != want):
                 cur = cand
                 changed = True
                 break
